@@ -132,13 +132,15 @@ class HotReloader:
 
         try:
             if force:
-                # Full load regardless of current ETag.
-                policy = await maybe_await(self.source.load())
+                # Full load regardless of current ETag. Read the tag BEFORE loading: if the
+                # source changes in between, the recorded tag is older than the document and
+                # the next check reloads (the other order would hide that change for good).
                 try:
                     new_etag_any = await maybe_await(self.source.etag())
                     new_etag: str | None = new_etag_any if isinstance(new_etag_any, str) else None
                 except Exception:
                     new_etag = None
+                policy = await maybe_await(self.source.load())
 
                 with self._lock:
                     self.guard.set_policy(policy)
